@@ -136,7 +136,18 @@ func execute(cs Case, choose sched.Chooser) (sched.Result, *runInfo) {
 			})
 		}
 	}
-	r := sched.Run(threads, choose, 4000)
+	ncalls := len(cs.Prefix)
+	for _, p := range cs.Progs {
+		ncalls += len(p)
+	}
+	bound := 4000 + 60*ncalls // catches runaway CAS loops under adversarial schedules
+	if len(cs.Progs) == 1 {
+		bound = 1 << 30 // a single goroutine cannot livelock
+	}
+	r := sched.Run(threads, choose, bound)
+	if r.Panic != "" || r.Deadlock {
+		return r, info // goroutines may be parked inside the map (holding m.mu): do not touch it again
+	}
 	m.Range(func(k, v int) bool { info.final = append(info.final, [2]int{k, v}); return true })
 	sort.Slice(info.final, func(i, j int) bool { return info.final[i][0] < info.final[j][0] })
 	return r, info
@@ -179,16 +190,19 @@ func report(c *core.Ctx, cs Case, r sched.Result, info *runInfo) {
 	if (labels["Miss_store"] || labels["Range_promote"]) && labels["Expunge_cas"] || (len(cs.Progs) > 1 && pre > 0) {
 		c.Nontrivial()
 	}
+	failedNow := true
 	if r.Panic != "" {
 		c.Fail("panic or runaway schedule in sync2.Map", r.Panic)
 	} else if r.Deadlock {
 		c.Fail("deadlock in sync2.Map", fmt.Sprint(r.Steps))
 	} else if msg := oracle(cs, r, info); msg != "" {
 		c.Fail(msg, describe(info))
+	} else {
+		failedNow = false
 	}
 	// Coq case
 	emitCount++
-	if emitEvery > 1 && emitCount%emitEvery != 0 && c.Stats["oracle_failures"] == 0 {
+	if emitEvery > 1 && emitCount%emitEvery != 0 && !failedNow {
 		c.Count("explored_oracle_only")
 		return
 	}
@@ -269,7 +283,54 @@ func oracle(cs Case, r sched.Result, info *runInfo) string {
 		v, ok := fin[k]
 		all = append(all, lin.Op{T: -1, First: end, Last: end, Kind: "Load", K: k, RV: v, ROK: ok})
 	}
-	if len(all) <= 64 {
+	if len(cs.Progs) == 1 {
+		// one goroutine: the history is sequential, compare call by call with an ordinary map (any length)
+		ref := map[int]int{}
+		for _, ci := range info.calls[0] {
+			v, had := ref[ci.spec.K]
+			bad := false
+			switch ci.spec.Op {
+			case "Load":
+				bad = ci.rok != had || (had && ci.rv != v)
+			case "Store":
+				ref[ci.spec.K] = ci.spec.V
+			case "LoadOrStore":
+				if had {
+					bad = !ci.rok || ci.rv != v
+				} else {
+					bad = ci.rok || ci.rv != ci.spec.V
+					ref[ci.spec.K] = ci.spec.V
+				}
+			case "LoadAndDelete":
+				bad = ci.rok != had || (had && ci.rv != v)
+				delete(ref, ci.spec.K)
+			case "Delete":
+				delete(ref, ci.spec.K)
+			case "Range":
+				seen := map[int]bool{}
+				for _, p := range ci.pairs {
+					if rv, ok := ref[p[0]]; !ok || rv != p[1] || seen[p[0]] {
+						bad = true
+					}
+					seen[p[0]] = true
+				}
+				if (ci.spec.N == 0 || len(ci.pairs) < ci.spec.N) && len(ci.pairs) != len(ref) {
+					bad = true
+				}
+			}
+			if bad {
+				return fmt.Sprintf("sequential history: %s(%d,%d) returned (%d,%v) %v, an ordinary map holds %v", ci.spec.Op, ci.spec.K, ci.spec.V, ci.rv, ci.rok, ci.pairs, ref)
+			}
+		}
+		if len(fin) != len(ref) {
+			return fmt.Sprintf("sequential history: final contents %v, an ordinary map holds %v", fin, ref)
+		}
+		for k, v := range ref {
+			if fin[k] != v {
+				return fmt.Sprintf("sequential history: final contents %v, an ordinary map holds %v", fin, ref)
+			}
+		}
+	} else if len(all) <= 64 {
 		if ok, _ := lin.Check(nil, all); !ok {
 			return "history is not linearizable to a map"
 		}
@@ -437,6 +498,32 @@ func run(c *core.Ctx) {
 		cs := Case{Progs: [][]CallSpec{prog}, Kind: "sequential"}
 		r, info := execute(cs, sched.NonPreemptive)
 		report(c, cs, r, info)
+	}
+	// 1b. long sequential histories over many keys (the promotion threshold, the dirty map size and any
+	// size-dependent shortcut depend on the number of keys): oracle only, a few of moderate size on the model
+	for i, nkeys := range []int{9, 17, 33, 65, 129, 257, 700} {
+		for rep := 0; rep < c.N(3, 12, 6); rep++ {
+			n := 40 * nkeys
+			if n > 6000 {
+				n = 6000
+			}
+			prog := make([]CallSpec, n)
+			rp := []int{1, 3, 8}[rep%3]
+			for j := range prog {
+				prog[j] = randCall(c, nkeys, rp)
+				if prog[j].Op == "Range" {
+					prog[j].N = 0
+				}
+			}
+			cs := Case{Progs: [][]CallSpec{prog}, Kind: "sequential_big"}
+			r, info := execute(cs, sched.NonPreemptive)
+			emitEvery, emitCount = 1000000, 1 // oracle only ...
+			if i < 2 && rep == 0 {
+				emitEvery = 1 // ... except two of the smaller ones
+			}
+			report(c, cs, r, info)
+			emitEvery = 1
+		}
 	}
 	// 2. all schedules with at most P pre-emptions of small two-thread programs on chosen layouts
 	type prog2 struct{ a, b []CallSpec }
